@@ -73,9 +73,11 @@ EXPLANATION = (
     'the real ref_phys_wall_distance on the same walls under three different rand() streams must print identical '
     'bits). '
     '(3) EXERCISED ONLY, not proved (testing in support): cli_repro re-runs every generated case of the five '
-    'commands (2-D and 3-D, np = serial,1,2,3,4 quick; to 8 thorough) 3-4 times (6 thorough) with the same argv '
-    'under different heap fill bytes (ASan malloc_fill_byte 0x55/0xAA for the sanitized serial binary; glibc '
-    'MALLOC_PERTURB_ 85/170/255/0 for a plain -O1 serial binary and for the MPI binary), ASLR on and off '
+    'commands (2-D and 3-D, np = serial,1,2,3,4 quick; to 8 thorough) 6 times serial / 3 times under MPI (9 / 5 '
+    'thorough) with the same argv under different heap fill bytes (ASan malloc_fill_byte 0x55/0xBF for the sanitized '
+    'serial binary; glibc MALLOC_PERTURB_ 85/191/170/255 - i.e. fresh memory filled with 0xAA/0x40/0x55/0x00, chosen so '
+    'that stale ints are large positive / negative / 0 and stale doubles are huge / tiny negative / 32.5 / -0.12 / 0 - '
+    'for a plain -O1 serial binary and for the MPI binary), ASLR on and off '
     '(setarch -R), Open MPI yield on/off, two-core pinning (over-subscription) and random sleeps in front of every '
     'MPI call (harness/pmpi_delay.c, PMPI interposition linked into the MPI binary; /repo untouched) and compares '
     'ALL files left in the working directory by sha256; cli_memcheck runs valgrind memcheck '
